@@ -628,7 +628,14 @@ class HostInterp:
   def _attr(self, base: HV, attr: str) -> HV:
     if isinstance(base, Obj):
       if attr in base.overrides:
-        return base.overrides[attr]
+        v = base.overrides[attr]
+        if isinstance(v, Field) and base.base is not None:
+          # dataclasses.replace(d, M=d.cM): reading `.M` of the replaced object yields d.cM under the alias M
+          path = f"{base.path}.{attr}" if base.path else attr
+          w = Field(v.owner, v.path, v.text, v.obj)
+          w.alias = (base.root_cls, path)
+          return w
+        return v
       sub = SUBOBJ.get((base.cls, attr))
       path = f"{base.path}.{attr}" if base.path else attr
       if sub:
